@@ -7,6 +7,7 @@ import (
 	"strconv"
 	"strings"
 
+	mttransfer "github.com/bianjieai/tibc-go/modules/tibc/apps/mt_transfer/types"
 	packettypes "github.com/bianjieai/tibc-go/modules/tibc/core/04-packet/types"
 	host "github.com/bianjieai/tibc-go/modules/tibc/core/24-host"
 
@@ -169,6 +170,12 @@ func (m *C09) After(w *world.World, a *world.Action) {
 		}
 	case "send-mt":
 		bal, sup := world.MtSnapshot(a.On)
+		if len(a.Msgs) == 1 {
+			if mm, ok := a.Msgs[0].(*mttransfer.MsgMtTransfer); ok && mm.Amount == 0 && len(mtDeltas(on, m.preBal, bal)) == 0 {
+				m.R.Count("zero-amount-mt-sends", 1) // accepted by the sending side, moves nothing
+				break
+			}
+		}
 		if msg := checkMtSend(m.preBal, m.preSup, bal, sup, a.Signer.Addr.String()); msg != "" {
 			violate(w, m.R, "mt-send-not-lock-or-burn", nil, msg)
 		}
